@@ -452,7 +452,7 @@ func (e *Exec) scenarioShape(path string, t types.Type, a string) ([]altFn, bool
 			delete(s.Fresh, r.Cell)
 			return MapV{Cell: r.Cell}
 		}, a)
-	case "strmap": // strmap(k:true, ...) a concrete map keyed by parameter atoms / literals
+	case "strmap", "litmap": // strmap(k:true, ...) a concrete map keyed by parameter atoms; litmap: by literal strings
 		mt := t.Underlying().(*types.Map)
 		return one(func(s *State) Val {
 			m := &MapAgg{Tag: path}
@@ -468,7 +468,11 @@ func (e *Exec) scenarioShape(path string, t types.Type, a string) ([]altFn, bool
 					v = mkInt(n)
 				}
 				_ = mt
-				m.Keys = append(m.Keys, atom(p[0]))
+				if name == "litmap" {
+					m.Keys = append(m.Keys, lit(p[0]))
+				} else {
+					m.Keys = append(m.Keys, atom(p[0]))
+				}
 				m.Vals = append(m.Vals, v)
 			}
 			r := s.alloc(m)
